@@ -116,7 +116,8 @@ def gen():
         epochs.append([4, 20, 1])
         return {"kernel": draw(st.sampled_from(["nuts", "hmc"])), "diag": draw(st.booleans()), "keys": keys, "epochs": epochs,
                 "other": draw(st.booleans()), "seed": draw(st.integers(0, 2**20)), "perm_seed": draw(st.integers(0, 23)),
-                "offset": draw(st.sampled_from([0.0, 0.0, 30.0, -400.0, 1000.0])), "iface": draw(st.sampled_from(["dict", "dict", "namedtuple", "dataclass"]))}
+                "offset": draw(st.sampled_from([0.0, 0.0, 30.0, -400.0, 1000.0])), "iface": draw(st.sampled_from(["dict", "dict", "namedtuple", "dataclass"])),
+                "upfront": draw(st.sampled_from([None, None, 1, 2]))}
 
     return g()
 
@@ -142,9 +143,13 @@ def run(c, keys):
     if c.get("iface", "dict") != "dict":
         st0 = {"namedtuple": NTState, "dataclass": DCState}[c["iface"]](**st0)
     tracked = list(keys) + (["z"] if c["other"] else [])
+    cfgs = [EpochConfig(EpochType(t), d, k, None) for t, d, k in c["epochs"]]
+    n0 = max(1, min(len(cfgs), c.get("upfront") or len(cfgs)))           # epochs known when the engine is made; the others are appended afterwards
     eng = gs.Engine(seeds=jax.random.split(jax.random.PRNGKey(c["seed"]), C), model_states=st0, kernel_sequence=KernelSequence(kernels),
-                    epoch_configs=[EpochConfig(EpochType(t), d, k, None) for t, d, k in c["epochs"]], jitted_sample_duration=20,
+                    epoch_configs=cfgs[:n0], jitted_sample_duration=20,
                     model=model, position_keys=tracked, store_kernel_states=True, show_progress=False)
+    for cfg in cfgs[n0:]:
+        eng.append_epoch(cfg)
     eng.sample_all_epochs()
     res = eng.get_results()
     ks = res.kernel_states.unwrap().combine_all().unwrap()[len(kernels) - 1]
@@ -218,7 +223,7 @@ def oracle(c):
     return {"nt": bool(nt and n_checked), "cls": [c["kernel"], "diag" if c["diag"] else "dense", f"keys{len(keys)}",
                                                    "sorted" if keys == sorted(keys) else "unsorted", "other" if c["other"] else "alone",
                                                    f"slow{sum(1 for e in c['epochs'] if e[0] == 2)}", "offset" if c.get("offset") else "centred",
-                                                   "few-draws" if few else "many-draws", "iface:" + c.get("iface", "dict"),
+                                                   "few-draws" if few else "many-draws", "appended-epochs" if c.get("upfront") else "all-upfront", "iface:" + c.get("iface", "dict"),
                                                    "slow-as-long-as-earlier-fast" if any(e[0] == 2 and any(f[0] in (1, 3) and -(-f[1] // f[2]) == -(-e[1] // e[2]) for f in c["epochs"][:i])
                                                                                        for i, e in enumerate(c["epochs"])) else "slow-lengths-unique"]}
 
